@@ -176,6 +176,7 @@ def run_correspondence(rep, rows, tag, prop_id, shard_size=250, check_codes=Fals
                                "payload": inst, "built_to_violate": tags, "implementation": v})
     shards = [shard_source(cases[i:i + shard_size]) for i in range(0, len(cases), shard_size)]
     outs = C.coq_eval_shards(tag, shards)
+    described = 0
     for si, (idx, out) in enumerate(outs):
         if idx is None:
             rep.violation("%s:correspondence:verdict:shard-failed" % prop_id,
@@ -186,7 +187,11 @@ def run_correspondence(rep, rows, tag, prop_id, shard_size=250, check_codes=Fals
         for i in idx:
             row, v = results[si * shard_size + i]
             version, mtype, action, kind, inst, tags = row
-            rc, desc = C.coq_query(tag + "-desc", HEADER + "Eval vm_compute in describe (%s).\n" % cases[si * shard_size + i])
+            # the model's own account of the case: only for the first few disagreements (one coqc run each)
+            desc = ""
+            if described < 5:
+                described += 1
+                rc, desc = C.coq_query(tag + "-desc", HEADER + "Eval vm_compute in describe (%s).\n" % cases[si * shard_size + i])
             # is this a failing input for the property? the construction oracle above decides;
             # otherwise the correspondence is broken without one.
             already = tags is not None and any(json.dumps(tags) in vkey and action in vkey for (vkey, _, _) in rep.violations)
